@@ -9,7 +9,7 @@
    input with its phase. *)
 From Coq Require Import ZArith List Bool Arith Lia.
 From V Require Import Model.DkgVss Model.DkgQual Model.DkgJoint Model.DkgNet Spec.DkgQualFacts
-  Proofs.DkgQualRefine Proofs.DkgAgree.
+  Proofs.DkgQualRefine Proofs.DkgAgree Proofs.DkgQualEvents Proofs.DkgQualFair.
 Import ListNotations.
 Open Scope Z_scope.
 
@@ -51,6 +51,17 @@ Theorem C07_verdict_is_function_of_broadcast_log :
     PhiEnd cf d A = PsiEnd (c_n cf) (c_t cf) (bview d A) (complained cf d A) (forced d A) (nph A).
 Proof. exact PhiEnd_is_Psi. Qed.
 Print Assumptions C07_verdict_is_function_of_broadcast_log.
+
+(* the own complaint is itself in the broadcast log: as long as the participant has not
+   disqualified the dealer, the model broadcasts the complaint message if and only if the
+   declarative fact [ownc] (used by [complained] for the own index) holds.  This is what the
+   network assumption "got_complaint j i = own_complaint i" of [admissible] expresses. *)
+Theorem C07_own_complaint_is_broadcast :
+  forall cf d, (c_my cf < c_n cf)%nat -> (d < c_n cf)%nat -> c_my cf <> d ->
+  forall L, Phi cf d (annot L) = false ->
+    (In (EvBcast (MComplaint (CIdx (Z.of_nat d)))) (irun_events cf d q_init L) <-> ownc cf d (annot L) = true).
+Proof. intros cf d A B C L. exact (own_complaint_emitted_iff cf d A B C L). Qed.
+Print Assumptions C07_own_complaint_is_broadcast.
 
 (* ---- agreement, one dealer ---- *)
 (* any two honest non-dealers of an admissible execution (same per-sender broadcast sequences
